@@ -35,7 +35,7 @@ def gen_opt_case(rng):
     n = rng.randint(1, 6)
     w = [[a, rng.choice([rng.uniform(-2, 2), 0.0, 1.0, 0.25])] for a in rng.sample(ASSETS + ['FFF'], n)]
     kind = rng.choice(['fixed', 'equal'])
-    return {'op': 'optimiser', 'kind': kind, 'scale': rng.choice([1.0, 2.0, 0.5, rng.uniform(0.1, 5)]), 'weights': w,
+    return {'op': 'optimiser', 'kind': kind, 'scale': rng.choice([1.0, 2.0, 0.5, rng.uniform(0.1, 5), 0.0, 0, -1.0, -0.5, 1, 2]), 'weights': w,
             'stream': 'optimiser:' + kind}
 
 
